@@ -768,7 +768,7 @@ func TestC05(t *testing.T) {
 	// quick: one 4-8 KB file exhaustively + 3 larger files sampled around the
 	// state boundaries; with several quick shards, shard 0 does the exhaustive
 	// file and the others share the sampled ones. thorough: every shard
-	// enumerates its own 12-27 KB file exhaustively + 1 large sampled file.
+	// enumerates its own 10-22 KB file exhaustively + 1 large sampled file.
 	shard, nshards := ev.Shard()
 	workers := 4
 	nExh, nSamp := 1, 3
@@ -778,9 +778,9 @@ func TestC05(t *testing.T) {
 	case ev.Thorough():
 		workers = 1
 		nSamp = 1
-		size := uint64(12000 + 800*(shard%16))
+		size := uint64(10000 + 600*(shard%16))
 		exhaustive = histParams{minStates: 12, minSize: size, maxSize: size + 3000, maxOps: 20000, persistW: 10, reopen: true, longVals: true, maxRows: 40}
-		sampled.minSize, sampled.maxSize = 60000, 80000
+		sampled.minSize, sampled.maxSize = 40000, 55000
 		sampled.maxOps = 40000
 	case nshards > 1 && shard == 0:
 		workers, nSamp = 3, 0
@@ -807,6 +807,9 @@ func TestC05(t *testing.T) {
 			bf, err := buildFile(t, filepath.Join(dir, "build.db"), key, p)
 			unmapUnder(dir)
 			if err != nil {
+				if discard(rec, "C05", err.Error()) {
+					t.Skip("history discarded")
+				}
 				buildFailed = true
 				t.Fatalf("history build: %v", err)
 			}
